@@ -143,7 +143,7 @@ _SEG = st.tuples(weighted([(0, 5), (1, 5), (2, 1)]), st.integers(0, 12), st.inte
 
 class InserterSub(Sub):
     name = "inserter"
-    budget = {"quick": 2400, "thorough": 50000}
+    budget = {"quick": 2000, "thorough": 50000}
     rule = ("link streams = bursts (1..300 words: data, K mixes, COM-first heads, all-zero payload look-alikes) "
             "separated by logical-idle runs of 1..400 words with can_send_skp exactly on the filler, through "
             "Scrambler+CTCSkipInserter wired as in physical/layer.py (3/4) or the real USB3PhysicalLayer with a stub "
@@ -300,7 +300,7 @@ _LINK_CLOCK = 2e3          # 360 ms = 720 cycles, 12 ms = 24, 2 ms = 4
 
 class LinkIdleSub(Sub):
     name = "link-idle"
-    budget = {"quick": 240, "thorough": 5000}
+    budget = {"quick": 160, "thorough": 5000}
     rule = ("real USB3LinkLayer (ss clock 2 kHz so that LTSSM time-outs are 4..720 cycles) over a stub physical "
             "layer; event schedules of PHY-ready / partner / VBUS levels, polling-, ping- and warm-reset-LFPS pulses, "
             "lfps_cycles_sent steps, physical sink.ready drops and long waits drive the LTSSM through Rx.Detect, "
